@@ -258,13 +258,18 @@ class Magnet():
             torrent._metainfo['info']['length'] = self.xl
         if hasattr(self, '_info'):
             torrent.metainfo['info'] = self._info
-        elif len(self.infohash) == 40:
-            torrent._infohash = self.infohash
+        else:
+            torrent._infohash = self._infohash_as_base16()
+        return torrent
+
+    def _infohash_as_base16(self):
+        """Lower-case base 16 representation of :attr:`infohash`"""
+        if len(self.infohash) == 40:
+            return self.infohash.lower()
         else:
             # Convert base 32 to base 16 (SHA1)
-            torrent._infohash = base64.b16encode(
-                base64.b32decode(self.infohash)).decode('utf-8').lower()
-        return torrent
+            return base64.b16encode(
+                base64.b32decode(self.infohash.upper())).decode('utf-8').lower()
 
     def get_info(self, validate=True, timeout=60, callback=None):
         """
